@@ -707,7 +707,14 @@ func check(prop, tier string, seed int64, budget, workers, maxSeeds int, race, n
 				exit = 1
 				continue
 			}
-			infra("violation %q of seed %d did not reproduce in a fresh process (got ok=%v class=%q sig=%q): the simulation is not deterministic for this case", k, g.v.Seed, v0.OK, v0.Class, v0.Signature)
+			if v0 != nil && !v0.OK && v0.Class == g.v.Class && strings.Contains(g.v.Signature, "stack overflow") && strings.Contains(v0.Signature, "stack overflow") {
+				// the cycle of a runaway recursion is named from samples of the stack; which functions of
+				// the cycle all samples contain can differ between two runs of the same recursion. Same
+				// class, same kind of crash: the violation reproduces, under the signature of this run
+				g.v.Signature = v0.Signature
+			} else {
+				infra("violation %q of seed %d did not reproduce in a fresh process (got ok=%v class=%q sig=%q): the simulation is not deterministic for this case", k, g.v.Seed, v0.OK, v0.Class, v0.Signature)
+			}
 		}
 		if v0.Scenario != nil {
 			sc = v0.Scenario
